@@ -71,3 +71,9 @@ def fill(claim, NA):
         "Trusted: CrossHair+z3; contract stub of bs4 (find/find_all/insert_before/insert_after semantics) and parser factory hooks; bounds 2+1 / 1+1+1 cues quick, 2+2 thorough.",
         "CrossHair symbolic execution + z3 over order relations between instants",
     )
+    claim(
+        "C11",
+        "Bounded symbolic execution of span writing in the DFXP, SAMI and WebVTT writers over every flat balanced node sequence (4 nodes quick, 5 and 7 thorough, per style, plus adjacent spans of two styles) and of span reading in the DFXP/SAMI converters over all 3-child paragraph trees: a reference scanner of the emitted markup gives every visible character the same italic/bold/underline flag as the input, the markup is balanced and properly nested, readers return balanced style nodes.",
+        "Trusted: CrossHair+z3 (finite structure space, completeness certified); reference markup scanner; element trees and bs4 emission as contracts.",
+        "CrossHair symbolic execution + z3 over node-kind sequences and tree shapes",
+    )
